@@ -252,9 +252,10 @@ def liftHD {α} : Except Fail α → Except WErr α
   | .ok a => .ok a
   | .error e => .error (.hd e)
 
-/-- `make_wallet()` given the outcome `gp` of `getpass()` (`none`: "Error reading seed password"); the
-    password is asked for only after the configuration checks that precede it in the Go code -/
-def makeWalletG (C : WalletCrypto) (c : Config) (gp : Option Bytes) : Except WErr Wallet := do
+/-- the part of `make_wallet()` in front of the scrypt call: wallet type, hdpath, bip39 word count, then the
+    password (`gp` = outcome of `getpass()`, `none`: "Error reading seed password") — the password is asked for
+    only after the configuration checks that precede it in the Go code -/
+def makeWalletPre (c : Config) (gp : Option Bytes) : Except WErr (Option (List Nat × Bytes × Bool) × Bytes) := do
   if c.waltype < 3 ∨ c.waltype > 4 then throw .waltype
   let path ← (if c.waltype = 4 then
       match parseHdPath c.hdpath with
@@ -266,12 +267,21 @@ def makeWalletG (C : WalletCrypto) (c : Config) (gp : Option Bytes) : Except WEr
   let pass0 ← match gp with
     | none => (throw .emptySeed : Except WErr _)
     | some p => pure p
-  let pass ← (if c.usescrypt ≠ 0 then
-      (if c.bip39wrds = -1 then (throw .scryptMnemonic : Except WErr _)
-       else match C.scrypt pass0 c.usescrypt with
-         | none => throw .scrypt
-         | some dk => if dk.length ≠ 32 then throw .scrypt else pure dk)
-    else pure pass0)
+  pure (path, pass0)
+
+/-- the scrypt block: the ONE place where `scrypt.Key` is called — on (password, usescrypt), and only when
+    usescrypt ≠ 0 and the mode is not bip39 = -1. `sc` is the scrypt oracle. -/
+def scryptStep (sc : Bytes → Nat → Option Bytes) (c : Config) (pass0 : Bytes) : Except WErr Bytes :=
+  if c.usescrypt ≠ 0 then
+    (if c.bip39wrds = -1 then (throw .scryptMnemonic : Except WErr _)
+     else match sc pass0 c.usescrypt with
+       | none => throw .scrypt
+       | some dk => if dk.length ≠ 32 then throw .scrypt else pure dk)
+  else pure pass0
+
+/-- the rest of `make_wallet()`: key generation from the (possibly scrypt-stretched) password -/
+def makeWalletCore (C : WalletCrypto) (c : Config) (path : Option (List Nat × Bytes × Bool)) (pass : Bytes) :
+    Except WErr Wallet := do
   match path with
   | none =>
     -- Type 3
@@ -319,6 +329,17 @@ def makeWalletG (C : WalletCrypto) (c : Config) (gp : Option Bytes) : Except WEr
     let recs ← liftHD ((ks0 ++ ks1).mapM (mkKeyRec C c))
     pure { mnemonic := mnemonic, rootX := some (HD.toString C root), leafX := some (HD.toString C hdwal),
            xtra := x2, keys := recs }
+
+/-- `make_wallet()` with the scrypt oracle as a separate argument (`Props.C14.deterministic` varies it) -/
+def makeWalletS (C : WalletCrypto) (sc : Bytes → Nat → Option Bytes) (c : Config) (gp : Option Bytes) :
+    Except WErr Wallet := do
+  let (path, pass0) ← makeWalletPre c gp
+  let pass ← scryptStep sc c pass0
+  makeWalletCore C c path pass
+
+/-- `make_wallet()` given the outcome `gp` of `getpass()` -/
+def makeWalletG (C : WalletCrypto) (c : Config) (gp : Option Bytes) : Except WErr Wallet :=
+  makeWalletS C C.scrypt c gp
 
 /-- `make_wallet()` of a run that takes the password from the seed file (or `-stdin`) -/
 def makeWallet (C : WalletCrypto) (c : Config) (file : Bytes) : Except WErr Wallet :=
